@@ -134,9 +134,9 @@ fn gen_case(rng: &mut Rng) -> Vec<i64> {
     let tenths = rng.chance(1, 2);
     let dir = rng.below(4) as i64;
     let justify = if rng.chance(1, 4) { -1 } else { rng.below(9) as i64 };
+    // (a childless node is laid out as a leaf, not as a flex container: n >= 1)
     let n = match rng.below(12) {
-        0 => 0,
-        1 | 2 => 1,
+        0 | 1 | 2 => 1,
         3 | 4 => 2,
         5 | 6 | 7 => 3,
         8 | 9 => 4,
@@ -250,7 +250,6 @@ fn corpus() -> Vec<Vec<i64>> {
             item(Some(120.0), Some(10.0), None, Some(80.0), 2.5, 2.5, Some(0.0), Some(0.0), [2.0, 0.0, 0.0, 1.0], 5.0),
         ]));
     }
-    v.push(cont(0, 7, 100.0, 3.0, vec![]));
     v
 }
 
